@@ -791,7 +791,7 @@ raise ValueError."""
             elif unaliased == ast.TYPE_UINT16:
                 value = str(symbol.const_int % 2 ** 16)
             elif unaliased == ast.TYPE_UINT8:
-                value = str(symbol.const_int % 2 ** 16)
+                value = str(symbol.const_int % 2 ** 8)
             else:
                 value = str(symbol.const_int)
         elif symbol.const_boolean is not None:
